@@ -17,6 +17,8 @@ import functools
 import json
 import os
 import shutil
+import sys
+import time
 
 import numpy as np
 
@@ -62,6 +64,11 @@ def plan(tier, seed):
         for part in range(3):
             specs.append({"name": "fault-%d-%d" % (d, part), "kind": "fault", "dataset": 20 + d, "part": part, "parts": 3, "timeout": 3600})
     specs.append({"name": "faultinj", "kind": "faultinj", "dataset": 30, "timeout": 3600})
+    # the block split over workers: every (--cores, number of loci) pair of a grid, in-process with the real pool / queue / writer
+    n_split = 4 if q else 8
+    for part in range(n_split):
+        specs.append({"name": "split-%d" % part, "kind": "split", "dataset": 40, "part": part, "parts": n_split,
+                      "max_loci": 48 if q else 96, "timeout": 3600})
     return specs
 
 
@@ -69,11 +76,13 @@ def required(tier):
     return {"subprocess_runs": 30, "multicore_runs_compared": 16, "records_compared_across_cores": 80, "inproc_identical_reruns": 4,
             "inproc_permuted_runs": 2, "inproc_subset_runs": 4, "history_variants_compared": 12, "fault_runs": 10,
             "fault_positions_covered": 5, "fault_runs_multicore": 5, "injected_fault_runs": 3,
-            "fault_runs_failing_block_finishes_last": 8, "fault_runs_single_locus_multicore": 1}
+            "fault_runs_failing_block_finishes_last": 8, "fault_runs_single_locus_multicore": 1,
+            "split_grid_pairs": 600, "split_records_compared": 15000, "split_assemble_pairs": 40}
 
 
 def coverage_extra(tier, col):
-    return {"distinct_output_orders_seen": len(col.sets.get("output_orders", ())), "core_counts_used": sorted(col.sets.get("cores", ()))}
+    return {"distinct_output_orders_seen": len(col.sets.get("output_orders", ())), "core_counts_used": sorted(col.sets.get("cores", ())),
+            "split_grid": "--cores %s x number of loci %s" % (sorted(col.sets.get("split_cores", ())), "1..%d" % int(col.maxima.get("split_max_loci", 0)))}
 
 
 # ---------------------------------------------------------------------------
@@ -437,8 +446,124 @@ def run_faultinj(tier, seed, spec, col):
     shutil.rmtree(ds.root, ignore_errors=True)
 
 
+# ---------------------------------------------------------------------------
+# split: how the loci are divided over workers
+
+
+def run_to_file(args, path):
+    """In-process run whose stdout is a real file, so that the forked writer process of a multi-core run shares it."""
+    from mchap.application import cli as mcli
+
+    old_argv, old_out = sys.argv, sys.stdout
+    exc = None
+    fh = open(path, "w")
+    try:
+        sys.argv = ["mchap"] + [str(a) for a in args]
+        sys.stdout = fh
+        try:
+            mcli.main()
+        except SystemExit as ex:
+            if ex.code not in (0, None):
+                exc = ex
+        except BaseException as ex:  # noqa: BLE001
+            exc = ex
+    finally:
+        sys.stdout = old_out
+        sys.argv = old_argv
+        fh.close()
+    cli.relax_warnings()
+    with open(path) as fh:
+        return fh.read(), exc
+
+
+def run_split(tier, seed, spec, col):
+    """Every (--cores c, number of loci k) pair of a grid: the records of a multi-core run over the first k loci must be, as
+    a multiset, the first k records of the single-core run over all loci (each locus once, none missing)."""
+    rng = gen.rng_for(seed, ID, 1000 + spec["dataset"], 0)
+    root = env.workdir("c08-%s" % spec["name"])
+    shutil.rmtree(root, ignore_errors=True)
+    n = spec["max_loci"]
+    ds = datasets.make_dataset(rng, root, n_samples=2, n_loci=n, ploidy=[2], depth=(4, 6), contig_len=90 * n + 200, snv_range=(1, 2), hostile=0.0)
+    recs = []
+    for L in ds.loci:
+        ref = ds.contigs[L["contig"]][L["start"]:L["stop"]]
+        alts = []
+        for s in ds.samples:
+            for hap in ds.genotypes[(s, L["name"])]:
+                sq = datasets.hap_sequence(ds.contigs, L, hap, L["start"], L["stop"])
+                if sq != ref and sq not in alts:
+                    alts.append(sq)
+        recs.append({"contig": L["contig"], "pos0": L["start"], "id": L["name"], "ref": ref, "alts": alts[:5]})
+    order = sorted(range(n), key=lambda i: (recs[i]["contig"], recs[i]["pos0"]))
+    recs = [recs[i] for i in order]
+    loci = [ds.loci[i] for i in order]
+    progs = {
+        "call-exact": lambda k, c: ["call-exact", "--haplotypes", hap_k(k), "--bam"] + ds.bams + ["--ploidy", "2"] + cores_arg(c),
+        "assemble": lambda k, c: ["assemble", "--targets", bed_k(k), "--variants", ds.vcf, "--reference", ds.fasta, "--bam"] + ds.bams
+        + ["--ploidy", "2", "--mcmc-steps", "60", "--mcmc-burn", "30", "--mcmc-seed", str(SEEDS[spec["part"] % 2])] + cores_arg(c),
+    }
+
+    def cores_arg(c):
+        return [] if c is None else ["--cores", str(c)]
+
+    def hap_k(k):
+        return hapvcf.write(os.path.join(root, "haps%d.vcf" % k), hapvcf.render(ds.contigs, recs[:k]))
+
+    def bed_k(k):
+        path = os.path.join(root, "t%d.bed" % k)
+        datasets.write_bed(path, [(L["contig"], L["start"], L["stop"], L["name"]) for L in loci[:k]])
+        return path
+
+    outp = os.path.join(root, "out.vcf")
+    base = {}
+    for prog in progs:
+        out, exc = run_to_file(progs[prog](n, None), outp)
+        rep = {"kind": "split", "program": prog, "seed": seed, "part": spec["part"], "loci": n, "cores": 1}
+        if exc is not None:
+            col.violation("program-fails-on-valid-input", "%s single core on %d small loci raised %r" % (prog, n, exc), rep)
+            return
+        lines = cli.record_lines(out)
+        if [rec_key(l) for l in lines] != [(L["contig"], str(L["start"] + 1)) for L in loci]:
+            col.violation("locus-missing-or-duplicated", "%s --cores 1 on %d loci emitted %d records / other loci than requested" % (prog, n, len(lines)), rep)
+            return
+        base[prog] = lines
+    pairs = [(c, k) for c in range(2, 17) for k in range(1, n + 1)]
+    mine = [p for i, p in enumerate(pairs) if i % spec["parts"] == spec["part"]]
+    asm = set(mine[int(rng.integers(0, 7))::7])
+    t0 = time.time()
+    for c, k in mine:
+        for prog in ["call-exact"] + (["assemble"] if (c, k) in asm else []):
+            case = {"kind": "split", "program": prog, "seed": seed, "part": spec["part"], "loci": k, "cores": c}
+            out, exc = run_to_file(progs[prog](k, c), outp)
+            col.case(case, nontrivial=True)
+            col.count("split_grid_pairs" if prog == "call-exact" else "split_assemble_pairs")
+            col.add_to_set("split_cores", c)
+            col.add_to_set("cores", c)
+            col.maxv("split_max_loci", k)
+            if exc is not None:
+                col.violation("program-fails-on-valid-input", "%s --cores %d on %d loci raised %r" % (prog, c, k, exc), case)
+                continue
+            got = cli.record_lines(out)
+            col.count("split_records_compared", len(got))
+            if sorted(got) != sorted(base[prog][:k]):
+                gk, wk = sorted(rec_key(l) for l in got), sorted(rec_key(l) for l in base[prog][:k])
+                if gk != wk:
+                    missing = [x for x in wk if x not in gk]
+                    dup = sorted(set(x for x in gk if gk.count(x) > 1))
+                    col.violation("locus-missing-or-duplicated", "%s --cores %d on a file of %d loci: %d records; missing %s duplicated %s"
+                                  % (prog, c, k, len(got), missing[:3], dup[:3]), case)
+                else:
+                    col.violation("record-depends-on-core-count", "%s --cores %d on %d loci: a record differs from the single-core run" % (prog, c, k), case)
+        if time.time() - t0 > 1500:
+            col.inconclusive_note("split grid part %d stopped after 1500 s" % spec["part"])
+            break
+    col.sample({"split": "call-exact (and every 7th pair assemble) in-process, stdout to a real file shared with the forked writer",
+                "pairs_in_this_shard": len(mine), "first_base_record": base["call-exact"][0][:200]})
+    shutil.rmtree(root, ignore_errors=True)
+
+
 def run_shard(tier, seed, spec, col):
-    {"cores": run_cores, "inproc": run_inproc, "fault": run_fault, "faultinj": run_faultinj}[spec["kind"]](tier, seed, spec, col)
+    {"cores": run_cores, "inproc": run_inproc, "fault": run_fault, "faultinj": run_faultinj, "split": run_split}[spec["kind"]](tier, seed, spec, col)
 
 
 def replay(obj, col):
